@@ -3,10 +3,12 @@ package main
 // Contract-level stubs for code that is not encoded (listed in evidence as part of the claim).
 
 import (
+	"bytes"
 	"crypto/sha1"
 	"encoding/base64"
 	"encoding/json"
 	"go/types"
+	"io"
 
 	"golang.org/x/tools/go/ssa"
 )
@@ -126,6 +128,60 @@ func addStubIntrinsics(t map[string]Intrinsic) {
 		if e := r.(TupleV)[1].(IfaceV); e.T != nil {
 			return e
 		}
+		return IfaceV{}
+	}
+	// json.NewDecoder(r).Decode(v): the stub reads r to its end (the real decoder buffers ahead as well) and decodes the
+	// first value natively; what follows the first value is left undecoded, exactly as the real Decoder does.
+	t["encoding/json.NewDecoder"] = func(m *Machine, fr *Frame, fn *ssa.Function, a []Value) Value {
+		m.noteStub("encoding/json.NewDecoder (stub)")
+		cell := new(Value)
+		*cell = m.zero(derefType(fn.Signature.Results().At(0).Type()))
+		m.side("jsondec")[cell] = a[0]
+		return cell
+	}
+	t["(*encoding/json.Decoder).Decode"] = func(m *Machine, fr *Frame, fn *ssa.Function, a []Value) Value {
+		m.noteStub("encoding/json.Decoder.Decode (native on concrete bytes, first value only)")
+		cell := a[0].(*Value)
+		var data []byte
+		if buf, ok := m.side("jsondecbuf")[cell].(string); ok {
+			data = []byte(buf)
+		} else {
+			r, _ := m.side("jsondec")[cell].(IfaceV)
+			for i := 0; i < 1000; i++ {
+				p := make([]Value, 512)
+				for j := range p {
+					p[j] = m.tf.Const(8, 0)
+				}
+				res, ok := m.callMethod(fr, r, "Read", p)
+				if !ok {
+					m.unsupported("json decoder source without Read")
+				}
+				tup := res.(TupleV)
+				n := int(m.concreteInt(fr, tup[0].(*Term), "decoder read count"))
+				chunk, okc := m.concreteBytes(p[:n])
+				if !okc {
+					m.unsupported("json.Decoder over symbolic bytes")
+				}
+				data = append(data, chunk...)
+				if e := tup[1].(IfaceV); e.T != nil {
+					break
+				}
+			}
+		}
+		v := a[1].(IfaceV)
+		pt, isPtr := v.T.(*types.Pointer)
+		if !isPtr || !isNamed(pt.Elem(), "encoding/json", "RawMessage") {
+			m.unsupported("json.Decoder.Decode into %v", v.T)
+		}
+		dec := json.NewDecoder(bytes.NewReader(data))
+		var rm json.RawMessage
+		err := dec.Decode(&rm)
+		rest, _ := io.ReadAll(dec.Buffered())
+		m.side("jsondecbuf")[cell] = string(rest)
+		if err != nil {
+			return m.newErrorString(err.Error())
+		}
+		*(v.V.(*Value)) = m.bytesValue(append([]byte{}, rm...))
 		return IfaceV{}
 	}
 	t["encoding/json.Unmarshal"] = func(m *Machine, fr *Frame, fn *ssa.Function, a []Value) Value {
